@@ -12,6 +12,7 @@ import Dlismodel.Model.Api
 import Dlismodel.Model.Output
 import Dlismodel.Model.Index
 import Dlismodel.Model.Hc
+import Dlismodel.Model.DriverConv
 namespace Dlis
 
 def hexDigit (n : Nat) : Char := if n < 10 then Char.ofNat (48 + n) else Char.ofNat (87 + n)
@@ -379,6 +380,7 @@ def handle (ws : List String) : String :=
       let s' := hcStep acc.1 op
       (s', acc.2 ++ [s'.flag])) ({ flag := f0 == "1", saved := [] }, [])
     "ok " ++ String.ofList (go.2.map fun b => if b then '1' else '0') ++ s!" depth={go.1.saved.length}"
+  | "asg" :: rest => handleAsg rest
   | ["hcstr", s] => match parseCps s with
     | some s => if hcString s then "1" else "0" | none => "bad"
   | "hist" :: n :: ops =>
